@@ -6,7 +6,12 @@
 //!   ErrorTables.lean – from_str / as_ref tables of the error-code and token-type enums
 //!   Consts.lean      – numeric / string constants and comparison operators the properties depend on
 //!   Inventory.lean   – new-type macro invocations, trait impls, Debug-deriving containers, shapes
-//! Files are rewritten only when their content changes.
+//!   RequestParams.lean – the eight `prepare_request` functions and `endpoint_request`, statement by statement
+//!   PollStep.lean    – `process_response` (interval expressions, which replies continue) and the two poll loops
+//!   ResponseFlow.lean – `endpoint_response` and friends as a decision tree
+//! Files are rewritten only when their content changes.  The first four are written together or not at all
+//! (they share the inventory); each of the last three is translated and written on its own, so that a shape
+//! outside one grammar does not keep the others from following the source.
 //!
 //! The recognised grammar is listed next to each translator (client.rs, tables.rs, consts.rs,
 //! inventory.rs).  Anything else is a TRANSLATION FAILURE: one line
@@ -16,6 +21,10 @@ mod client;
 mod consts;
 mod inventory;
 mod lean;
+mod mini;
+mod poll;
+mod request;
+mod respflow;
 mod tables;
 
 use std::collections::BTreeMap;
@@ -96,25 +105,62 @@ fn run(src: &Path, outdir: &Path, inv_json: &Path) -> R<Vec<String>> {
     }
     let srcs = Sources { files };
 
-    let inv = inventory::extract(&srcs)?;
-    let client_ops = client::extract(&srcs, &inv)?;
-    let tables = tables::extract(&srcs)?;
-    let consts = consts::extract(&srcs, &inv)?;
-
     let mut notes = Vec::new();
-    for (name, content) in [
-        ("ClientOps.lean", client_ops),
-        ("ErrorTables.lean", tables),
-        ("Consts.lean", consts),
-        ("Inventory.lean", inventory::to_lean(&inv)),
-    ] {
+    let mut first_failure: Option<Failure> = None;
+
+    // the statement-level translators: independent of each other and of the inventory
+    type Translator = fn(&Sources) -> R<String>;
+    let independent: [(&str, Translator); 3] =
+        [("RequestParams.lean", request::extract), ("PollStep.lean", poll::extract), ("ResponseFlow.lean", respflow::extract)];
+    let mut later = Vec::new();
+    for (name, f) in independent {
+        match f(&srcs) {
+            Ok(content) => later.push((name, content)),
+            Err(e) => {
+                notes.push(format!("{name}: NOT translated"));
+                if first_failure.is_none() {
+                    first_failure = Some(e);
+                }
+            }
+        }
+    }
+
+    let old = (|| -> R<Vec<(&str, String)>> {
+        let inv = inventory::extract(&srcs)?;
+        let client_ops = client::extract(&srcs, &inv)?;
+        let tables = tables::extract(&srcs)?;
+        let consts = consts::extract(&srcs, &inv)?;
+        let js = serde_json::to_string_pretty(&inventory::to_json(&inv)).unwrap() + "\n";
+        Ok(vec![
+            ("ClientOps.lean", client_ops),
+            ("ErrorTables.lean", tables),
+            ("Consts.lean", consts),
+            ("Inventory.lean", inventory::to_lean(&inv)),
+            ("inventory.json", js),
+        ])
+    })();
+    match old {
+        Ok(files) => {
+            for (name, content) in files {
+                let path = if name == "inventory.json" { inv_json.to_path_buf() } else { outdir.join(name) };
+                let changed = write_if_changed(&path, &content);
+                notes.push(format!("{name}: {}", if changed { "rewritten" } else { "unchanged" }));
+            }
+        }
+        // the older translators' failure is reported first (as before); the new files are still written
+        Err(e) => first_failure = Some(e),
+    }
+    for (name, content) in later {
         let changed = write_if_changed(&outdir.join(name), &content);
         notes.push(format!("{name}: {}", if changed { "rewritten" } else { "unchanged" }));
     }
-    let js = serde_json::to_string_pretty(&inventory::to_json(&inv)).unwrap() + "\n";
-    let changed = write_if_changed(inv_json, &js);
-    notes.push(format!("inventory.json: {}", if changed { "rewritten" } else { "unchanged" }));
-    Ok(notes)
+    match first_failure {
+        None => Ok(notes),
+        Some(e) => {
+            println!("extract partial: {}", notes.join("; "));
+            Err(e)
+        }
+    }
 }
 
 fn main() {
